@@ -264,6 +264,7 @@ APPENDS = {
  'C10': "Round 7: justification level 4 in a class, after a class at level 3, and in a rule.",
  'C11': "Round 7 corpus: labels of 600 characters and of none, bytes above 0x7F in Macintosh names when renaming, gpath/gpoint without -offsets and with negative values, a point assigned from a point, attributes on deleted items, stretch above 16 bits at level 1, every spelling of a point.",
  'C12': "Round 7: family cross_line_boundary_context (the two header bytes are a product of rule lengths, cut off at 255 - the census rows were reclassified); all four justification attribute ids of the header are compared.",
+ 'C13': "Round 7: twelve programs combine Bidi = false/true/2, the script direction and a pass direction that agrees with it or opposes it.",
  'C15': "Round 7: -v1 is requested too; the break weight of every character is part of what is compared across builds; one program has more than 64K of glyph attribute data that compresses to less.",
  'C16': "Round 7: symbol fonts (name records under 3/0) with and without Macintosh records; fixed programs (negative setting value, 65535, features without settings) compiled three times in a chain over three kinds of name table.",
  'C17': "Round 7: under -g, a metric of a class (cX.advancewidth, bb.right, bb.top) whose first members the font lacks is the metric of the first glyph the font has.",
